@@ -205,6 +205,11 @@ func (_this *Context) BeginMap() {
 }
 
 func (_this *Context) NotifyKey(key interface{}) {
+	if v, ok := key.(negint); ok && v != 0 {
+		// Normalize so that the same value is the same key no matter which
+		// integer event delivered it.
+		key = new(big.Int).Neg(new(big.Int).SetUint64(uint64(v)))
+	}
 	switch v := key.(type) {
 	case int:
 		if v >= 0 {
